@@ -357,6 +357,15 @@ RULESETS = {
     "pade": PADE,
     "padeb": PADE_B,
     "expm_tail": EXPM_TAIL,
+    "ellrules": [
+        Rule("ell.holder.reset", r'\babsA\.reset\s*\(', 'holder_reset(absA,', min=1),
+        Rule("ell.holder.arrow", r'\babsA->', '(&absA->m)->', min=2),
+        Rule("ell.holder.use", r'(?<![\w.>&])absA(?=\s*[,)])', '(&absA->m)', min=3),
+        Rule("ell.pow", r'(?<![\w.>])pow\s*\(', 'sq_pow(', min=1),
+        Rule("ell.log2", r'(?<![\w.>])log\s*\(([^()]*)\)\s*/\s*M_LN2', r'sq_log2(\1)', min=1),
+        Rule("ell.ceil", r'\(int\)\(\s*std::ceil\s*\(((?:[^()]|\([^()]*\))*)\)\s*\)', r'sq_iceil(\1)', min=1),
+        Rule("ell.max", r'std::max\s*\(', 'sq_imax(', min=1),
+    ],
     "solvepq": [
         Rule("spq.perm.decl", r'SQUIDS_THREAD_LOCAL\s+gsl_permutation_holder\s+(\w+)\s*;', r'struct perm* \1=&\1_s;', min=1),
         Rule("spq.perm.reset", r'\bper\.reset\s*\(', 'perm_reset(per,', min=1),
